@@ -117,6 +117,15 @@ def specs(ctx, n):
         ta, tr = rng.choice(TOLS)
         es = cfg_dict(nn, ta, tr, rng.random() < 0.3)
         calls = [dict(n_iter=n_iter, early_stopping=es, memory=rng.random() < 0.5)]
+        # together with other criteria that cannot fire here (a huge time budget, an unreachable target): the rule still decides
+        r2 = rng.random()
+        if r2 < 0.15:
+            calls[0]["max_time"] = 10 ** 6
+        elif r2 < 0.3:
+            calls[0]["max_score"] = 1e12
+        elif r2 < 0.35:
+            calls[0]["max_time"] = 10 ** 6
+            calls[0]["max_score"] = 1e12
         out.append(dict(name=name, space=space, table=table, script=script, calls=calls, seed=rng.randrange(10 ** 6),
                         init=gen.gen_initialize(rng, space), scalar=rng.choice(["float", "np"])))
     return out
